@@ -29,9 +29,25 @@ import (
 )
 
 func init() {
-	runners["C11"] = runSrv4
-	runners["C13"] = func(c *Ctx) { runSrv4(c); rule := c.Extra["rule"]; runSrv6(c); c.Extra["rule"] = fmt.Sprint(rule) + " || DHCPv6: " + fmt.Sprint(c.Extra["rule"]) }
-	runners["C15"] = runSrv4
+	runners["C11"] = func(c *Ctx) {
+		runSrv4(c)
+		rule := c.Extra["rule"]
+		runRealChains11(c) // the same statement on chains of the real plugins
+		runServeLoop4(c, c.Scale(12, 300))
+		c.Extra["rule"] = fmt.Sprint(rule) + " || real chains: generated DHCPv4 configurations of the built-in plugins (incl. a range driven to exhaustion) in fresh processes, every reply held against its request and compared with the assembled model"
+	}
+	runners["C13"] = func(c *Ctx) {
+		runSrv4(c)
+		rule := c.Extra["rule"]
+		runSrv6(c)
+		rule6 := c.Extra["rule"]
+		runPlugins(c) // the built-in handlers: a nil response only ever together with stop
+		c.Extra["rule"] = fmt.Sprint(rule) + " || DHCPv6: " + fmt.Sprint(rule6) + " || built-in plugins: " + fmt.Sprint(c.Extra["rule"])
+	}
+	runners["C15"] = func(c *Ctx) {
+		runSrv4(c)
+		runL2Sequence(c)
+	}
 }
 
 // ---- Gallina printer for a parsed DHCPv4 message ----
@@ -670,6 +686,14 @@ func randReq4(c *Ctx) req4spec {
 	if r.Pct(30) {
 		s.extra = map[uint8][]byte{55: {1, 3, 6, 15}, 12: []byte("host")}
 	}
+	if r.Pct(25) {
+		// options a server might be tempted to act on: Rapid Commit (80), requested address, lease time, ...
+		if s.extra == nil {
+			s.extra = map[uint8][]byte{}
+		}
+		code := []uint8{80, 80, 50, 51, 57, 60, 77, 93, 118, 255 - 1}[r.Intn(10)]
+		s.extra[code] = [][]byte{{}, {1}, {10, 0, 0, 9}, {0, 0, 14, 16}}[r.Intn(4)]
+	}
 	return s
 }
 
@@ -1008,3 +1032,48 @@ func runListen4(c *Ctx) {
 }
 
 func timeAfter(ms int) <-chan time.Time { return time.After(time.Duration(ms) * time.Millisecond) }
+
+// runL2Sequence (C15): ONE unbound listener answers a sequence of layer-2 replies for requests that
+// arrived on different interfaces.  The first arrives on the loopback interface (which exists, so the
+// frame is really handed to it); the following ones on interfaces 7001 and 7002, which do not exist:
+// each of them must make the server look up exactly that interface (observed through the
+// "Can not get Interface for index N" log line) - not reuse the one of an earlier reply.
+func runL2Sequence(c *Ctx) {
+	hook := installHook()
+	registerSynthetic()
+	lo, err := net.InterfaceByName("lo")
+	if err != nil {
+		c.Count("l2-sequence:skipped-no-loopback")
+		return
+	}
+	conf := &config.Config{Server4: &config.ServerConfig{Plugins: []config.PluginConfig{{Name: "vtest", Args: []string{"p"}}}}}
+	h4, _, err := plugins.LoadPlugins(conf)
+	if err != nil {
+		return
+	}
+	l := server.NewVerifListener4(h4, net.Interface{}, func(p []byte, cm *ipv4.ControlMessage, dst net.Addr) {})
+	defer l.Close()
+	seq := []int{lo.Index, 7001, lo.Index, 7002, 7001}
+	var seen []string
+	for i, idx := range seq {
+		s := req4spec{op: 1, mtype: []byte{1}, chaddr: []byte{2, 5, 0, 0, 0, byte(i)}, xid: uint32(0x15000 + i)}
+		hook.take()
+		func() {
+			defer func() { recover() }()
+			l.Handle(buildReq4(s), &ipv4.ControlMessage{IfIndex: idx}, &net.UDPAddr{IP: net.IPv4zero, Port: 68})
+		}()
+		got := -1
+		for _, m := range hook.take() {
+			if mm := reL2.FindStringSubmatch(m); mm != nil {
+				got, _ = strconv.Atoi(mm[1])
+			}
+		}
+		seen = append(seen, fmt.Sprintf("request on interface %d -> lookup failure logged for %d", idx, got))
+		c.Evals++
+		if idx != lo.Index && got != idx {
+			c.vio("C15", "l2-wrong-interface", fmt.Sprintf("layer-2 reply %d of one unbound listener: the request arrived on interface %d, but the server did not look that interface up (it logged index %d; an interface of an earlier reply reused?)", i, idx, got),
+				map[string]interface{}{"sequence of receiving interfaces": seq, "observed": seen})
+		}
+	}
+	c.Count("l2-sequence")
+}
